@@ -528,7 +528,11 @@ RULE = ("acyclic node graphs rendered to GenApi XML (real parser + real nodes) a
         "vs model/Access.v by vm_compute; failing controlling nodes in every run (dangling reference, register the device "
         "refuses, integer remainder by zero in a formula, Boolean neither on nor off, wrong kind; alone / behind a flipped "
         "earlier control / two failures in a row) with the independent rule 'first failing control or first no, in the "
-        "order implemented, available, locked' predicting the exact outcome incl. error class; a sample again with the register cache enabled (predicate only); predicate "
+        "order implemented, available, locked' predicting the exact outcome incl. error class, the same failing controls "
+        "on pValue targets / first, middle, last pValueCopy / pIndex nodes and entries / converter pValue / every "
+        "variable position; an independent Python evaluation of the complete answer (conditions in order through the "
+        "value sources and targets, first failure wins) must equal the implementation's outcome code for every node in "
+        "every state; a sample again with the register cache enabled (predicate only); predicate "
         "= independent three-valued Python evaluation of Readable / Writable from the property text, plus: on a node "
         "that is evaluable (every reachable node well-kinded and evaluating, as in C18_readable_exactly) an error "
         "answer is a failure; non-trivial = "
